@@ -186,7 +186,9 @@ class MiniShard(CMCReadWrite):
                 << self.shard_spec.preshift_bits
             ) & cmc
 
-        chunk_to_store = self.shard_spec.data_encoder(buf)
+        # Encoders may return any bytes-like object (e.g. a bytearray for
+        # compressed_segmentation), the on-disk buffer only accepts bytes
+        chunk_to_store = bytes(self.shard_spec.data_encoder(buf))
         if self.can_be_appended(cmc):
             self.append(chunk_to_store, cmc)
             self.flush_buffer()
